@@ -146,12 +146,15 @@ def run(case):
     import warnings as _w
     with _w.catch_warnings():
         _w.simplefilter("ignore")
-        f64 = v.astype(np.float64) if dt.kind != "f" else v.astype(np.float32 if dt != np.float32 else np.float64)
+        f64 = (v.astype(np.complex128 if dt != np.complex128 else np.complex64) if dt.kind == "c" else
+               (v.astype(np.float64) if dt.kind != "f" else v.astype(np.float32 if dt != np.float32 else np.float64)))
     def conversions(r):
         convs = [("np.array(copy=True)", lambda: np.array(r, copy=True), v), ("np.array(dtype=%s)" % f64.dtype, lambda: np.array(r, dtype=f64.dtype), f64),
                  ("np.asarray(dtype=own)", lambda: np.asarray(r, dtype=dt), v)]
         # conversions across kinds (float -> int, signed -> unsigned, anything -> bool) are what numpy's own astype gives (finite values only)
-        if dt.kind != "f" or bool(np.all(np.isfinite(v))):
+        if dt.kind == "c":
+            convs.append(("np.asarray(dtype=complex128)", lambda: np.asarray(r, dtype=np.complex128), v.astype(np.complex128)))      # (casts that drop the imaginary parts are left out)
+        elif dt.kind != "f" or bool(np.all(np.isfinite(v))):
             for tgt in (["int64", "uint8", "bool", "int8"] if dt.kind == "f" else ["uint8", "bool", "uint64", "int16"]):
                 with _w.catch_warnings():
                     _w.simplefilter("ignore")
@@ -251,6 +254,8 @@ def run(case):
             src, dense = (r + big, v + big) if L % 2 else (big - r, big - v)
         elif case["via"] == "mul0" and dt.kind != "b":
             src, dense = r * dt.type(0), v * dt.type(0)
+        elif case["via"] in ("floordiv", "add_big", "mul0") and dt.kind == "c":
+            src, dense = r * dt.type(0), v * dt.type(0)          # (no floor division for complex numbers)
         elif case["via"] in ("floordiv", "add_big", "mul0"):
             src, dense = (r // 2, v // 2) if dt.kind != "b" else (np.logical_or(r, True), np.logical_or(v, True))
         else:
